@@ -88,6 +88,8 @@ Acc(v) ==
    hasAssert |-> HasAssertionFailure(v), isAssert |-> IsAssertionFailure(v),
    hasLink |-> HasIssueLink(v), isLink |-> IsIssueLink(v),
    hasUnimpl |-> HasUnimplemented(v), isUnimpl |-> IsUnimplemented(v),
-   http |-> CodeOf(v, "withHTTPCode"), grpc |-> CodeOf(v, "withGrpcCode"), hastype |-> HasTypes(v),
+   http |-> CodeOf(v, "withHTTPCode"),
+   \* (codes.Unknown, attached or not, shows as "no code")
+   grpc |-> (IF CodeOf(v, "withGrpcCode") = <<"n2">> THEN <<>> ELSE CodeOf(v, "withGrpcCode")), hastype |-> HasTypes(v),
    notin |-> NotIn(v), hasHinter |-> HasHinter(v), ifDetail |-> IfDetail(v)]
 =============================================================================
